@@ -41,6 +41,10 @@ type World struct {
 	callees   map[*FuncInfo][]*FuncInfo
 	scc       map[*FuncInfo]int
 	selfRec   map[*FuncInfo]bool
+	freshObj  map[*FuncInfo]bool
+	ownW      map[*FuncInfo]map[string]map[int]bool
+	retSum    map[*FuncInfo]ocls
+	mutParams map[*FuncInfo]map[int]bool // parameters (receiver excluded) whose map/slice content the function writes in place
 }
 
 func pkgDirOf(repo string, p *packages.Package) string {
@@ -140,6 +144,14 @@ func loadWorld(repo string, verifContracts string) (*World, error) {
 			}
 			w.Notes = append(w.Notes, fmt.Sprintf("contracts for %s read from the mirror %s (not present in the working tree)", dir, alt))
 			path = alt
+		}
+		if alt := filepath.Join(verifContracts, dir, "contracts_verif.go"); alt != path {
+			a, e1 := os.ReadFile(path)
+			b, e2 := os.ReadFile(alt)
+			if e1 == nil && e2 == nil && string(a) != string(b) {
+				w.Notes = append(w.Notes, fmt.Sprintf("contracts for %s: the working-tree file %s differs from the mirror %s; the working-tree file is used", dir, path, alt))
+				fmt.Fprintf(os.Stderr, "bklverif: note: %s differs from the mirror under /verif/contracts (working-tree file wins)\n", path)
+			}
 		}
 		cs, err := parseContractFile(path, dir)
 		if err != nil {
